@@ -39,6 +39,10 @@ pub struct Case {
     /// shutdown requests issued from the last start-up stage of a restart: (k, command) applies to incarnation 2 + k % 3
     #[serde(default)]
     pub restart_cmds: Vec<(u8, Cmd)>,
+    /// a handler that requests a restart in d first schedules a self-message for exactly that instant: it was
+    /// scheduled before the restart, so it arrives first (events of one instant keep their order) and is dropped
+    #[serde(default)]
+    pub tie: bool,
 }
 
 pub struct C09;
@@ -63,6 +67,7 @@ struct Target {
     tick_cmds: Vec<(u8, u8, Cmd)>,
     local_ticker: bool,
     restart_cmds: Vec<(u8, Cmd)>,
+    tie: bool,
 }
 
 fn restart_cmd(cmds: &[(u8, Cmd)], inc: i64) -> Option<Cmd> {
@@ -118,6 +123,13 @@ impl Module for Target {
     fn handle_message(&mut self, msg: Message) {
         let id = msg.header().id as usize;
         net::log("msg", self.inc, id as i64);
+        if id >= 60_000 {
+            // a self-message of an earlier incarnation: never expected to arrive
+            return;
+        }
+        if let (true, Cmd::Restart(d)) = (self.tie, &self.cmds[id]) {
+            schedule_in(Message::default().id(62_000 + id as u16), du(*d as u128 * MS));
+        }
         apply(&self.cmds[id]);
         if self.cmds[id] != Cmd::Nop {
             // the shutdown takes effect at the end of this event: a farewell sent after the request still leaves
@@ -167,6 +179,8 @@ enum Ev {
     Transit(usize),
     Probe(usize),
     Restart,
+    /// the self-message scheduled for the restart instant by the handler of this message id
+    Tie(usize),
 }
 
 pub fn run_case(case: &Case) -> Result<(bool, Vec<&'static str>), Failure> {
@@ -205,6 +219,7 @@ pub fn run_case(case: &Case) -> Result<(bool, Vec<&'static str>), Failure> {
             tick_cmds: case.tick_cmds.clone(),
             local_ticker: case.local_ticker,
             restart_cmds: case.restart_cmds.clone(),
+            tie: case.tie,
         },
     );
     sim.node("d", Driver { sends: sends.clone() });
@@ -267,6 +282,7 @@ pub fn run_case(case: &Case) -> Result<(bool, Vec<&'static str>), Failure> {
         push(&mut agenda, period, Ev::Tick(1, 1));
     }
     let mut down_msgs = 0;
+    let mut tie_dropped = false;
     let mut old_timer_after_restart = false;
     let mut cycles = 0;
     let mut shutdown_from_restart = false;
@@ -300,6 +316,9 @@ pub fn run_case(case: &Case) -> Result<(bool, Vec<&'static str>), Failure> {
                 if active {
                     want_t.push(r("t", "msg", inc, id as i64, now));
                     request = Some(cmds[id].clone());
+                    if let (true, Cmd::Restart(d)) = (case.tie, &cmds[id]) {
+                        push(&mut agenda, now + *d as u128 * MS, Ev::Tie(id));
+                    }
                     if cmds[id] != Cmd::Nop {
                         want_b.push(r("b", "brecv", 61_000 + id as i64, 0, now));
                     }
@@ -312,6 +331,14 @@ pub fn run_case(case: &Case) -> Result<(bool, Vec<&'static str>), Failure> {
                     want_b.push(r("b", "brecv", id as i64, 0, now));
                 } else {
                     down_msgs += 1;
+                }
+            }
+            Ev::Tie(id) => {
+                if active {
+                    want_t.push(r("t", "msg", inc, 62_000 + id as i64, now));
+                } else {
+                    down_msgs += 1;
+                    tie_dropped = true;
                 }
             }
             Ev::Probe(k) => want_d.push(r("d", "probe-active", sends[k].2 as i64, active as i64, now)),
@@ -431,6 +458,9 @@ pub fn run_case(case: &Case) -> Result<(bool, Vec<&'static str>), Failure> {
     if shutdown_from_restart {
         labels.push("shutdown-requested-in-the-restart-event");
     }
+    if tie_dropped {
+        labels.push("self-message-scheduled-for-the-restart-instant-before-the-request");
+    }
     if case.local_ticker && max_ticks > 0 {
         labels.push("timer-task-in-the-local-set");
     }
@@ -444,7 +474,7 @@ impl Prop for C09 {
 
     fn rule() -> String {
         "generated fault placements: a target module (2 start-up stages, a timer task - created with tokio::spawn or spawn_local - ticking every 1..6 ms up to 7 times per incarnation), a \
-         driver and a bystander (greeted by the target through a gate from its last start-up stage in every incarnation, and sent a farewell by every handler right after it requested a shutdown); messages injected directly and sent by the driver over a latency channel (in transit at shutdown), messages to the \
+         driver and a bystander (greeted by the target through a gate from its last start-up stage in every incarnation, and sent a farewell by every handler right after it requested a shutdown; in 40% of the cases a handler that requests a restart first schedules a self-message for exactly the restart instant, which must be dropped); messages injected directly and sent by the driver over a latency channel (in transit at shutdown), messages to the \
          bystander routed through a transit gate owned by the target; shutdown / shutdown-and-restart(0..40 ms) commands attached to generated \
          messages, to generated (incarnation, tick) points of the task and to the last start-up stage of a restart, up to several cycles. All instants are distinct by construction \
          (microsecond offsets). Oracle: an incarnation model yields the exact log (kind, incarnation, time) of the target (start stages once each at \
@@ -455,7 +485,7 @@ impl Prop for C09 {
     }
     fn assumptions() -> Vec<String> {
         vec![
-            "no two events of a run share a timestamp (so a message arriving exactly at the restart instant does not occur)".into(),
+            "apart from the self-message a handler schedules for the restart instant before it requests the restart (which, being scheduled first, arrives first and is dropped), no two events of a run share a timestamp".into(),
             "shutdown is never requested from a start-up stage of the initial start, nor from a non-final stage".into(),
         ]
     }
@@ -485,8 +515,9 @@ impl Prop for C09 {
             proptest::collection::vec((1u8..5, 1u8..8, hot), 0..3),
             proptest::bool::weighted(0.3),
             proptest::collection::vec((0u8..3, hot2), 0..3),
+            proptest::bool::weighted(0.4),
         )
-            .prop_map(|(period_ms, max_ticks, direct, via_driver, latency_ms, transit, tick_cmds, local_ticker, restart_cmds)| Case {
+            .prop_map(|(period_ms, max_ticks, direct, via_driver, latency_ms, transit, tick_cmds, local_ticker, restart_cmds, tie)| Case {
                 period_ms,
                 max_ticks,
                 direct,
@@ -496,6 +527,7 @@ impl Prop for C09 {
                 tick_cmds,
                 local_ticker,
                 restart_cmds,
+                tie,
             })
             .boxed()
     }
